@@ -616,7 +616,8 @@ def run_scenario(desc):
                 break
         tr = rec.finish()
         tr['canon'] = canonical_reference(desc) if desc.get('with_canon') else NO_CANON
-        tr['desc'] = {'indomain': bool(desc.get('indomain', True)), 'grammar': bool(desc.get('grammar', True))}
+        tr['desc'] = {'indomain': bool(desc.get('indomain', True)), 'grammar': bool(desc.get('grammar', True)),
+                      'nomsa': bool(desc.get('nomsa', False))}
         tr['nrows'] = len(desc['rows'])
         return tr
     except Inexact as e:
